@@ -559,7 +559,37 @@ def r12_8(prog: Program, rep: Report):
                 rep.check(not ws, "R12.8", m.qualname, m.loc, "routine state is construction-time only", f"{name} writes routine state {ws[:2]} outside the constructor: the cached routine changes between calls", detail="routine-state")
 
 
+def r12_9(prog: Program, rep: Report):
+    """Running out of stack or memory is a fact about the *call*, not about its arguments.  A memoised function that swallows
+    RecursionError / MemoryError and returns a fallback stores that fallback for good: the same arguments give a different
+    answer depending on how deep the stack was when they were first seen."""
+    memo = prog.memoised_functions()
+    transient = ("builtins.RecursionError", "builtins.MemoryError")
+    n = 0
+    for q in sorted(memo):
+        f = prog.functions.get(q)
+        if f is None:
+            continue
+        try:
+            ps = P.paths_of(prog, f)
+        except AnalysisError:
+            continue
+        bad = set()
+        for p in ps:
+            if p.exit[0] != "return":
+                continue
+            for names in P.abandoned(p):
+                for tname in transient:
+                    if oracle.exc_covered(tname, names):
+                        bad.add(tname.rsplit(".", 1)[1])
+        n += 1
+        rep.check(not bad, "R12.9", q, f.loc, "no exit remembers an answer reached by swallowing RecursionError / MemoryError", f"memoised, and an exit returns after swallowing {sorted(bad)}: whether the parser ran out of stack depends on how deep the caller already was, yet the fallback is cached -- unmarshal(tuple, TEXT) returns the characters of TEXT for the rest of the process once TEXT was first seen 150 frames deep", detail="transient-error-remembered")
+    return n
+
+
 def run(prog: Program, rep: Report, tier: str):
+    rep.rule("R12.9", "memoised functions do not remember answers reached by swallowing transient resource errors", floor=30)
+    r12_9(prog, rep)
     rep.rule("R12.1", "no call-time state write that is read back (frozen latches excepted)", floor=3)
     rep.rule("R12.2", "memoised mutable results do not escape through routine/API returns; no memoised one-shot objects", floor=40)
     rep.rule("R12.3", "key granularity of memoised functions (triaged candidates)", floor=5)
